@@ -247,6 +247,11 @@ def r3(ctx, rule):
         for d in b.defs().get(l, []):
             if d[2] == 'call':
                 producers.append(d[3])
+                # an iterator adaptor chain (into_iter / filter / collect ...) hands on the value of its receiver
+                if not d[3].path.startswith('group::') and d[3].args and re.search(r'Iterator|IntoIterator|FromIterator|collect|filter|into_iter', d[3].path):
+                    ol = op_local(d[3].args[0])
+                    if ol is not None:
+                        work.append(ol)
             elif d[3]['rv']['k'] == 'use':
                 ol = op_local(d[3]['rv']['op'])
                 if ol is not None:
@@ -270,25 +275,37 @@ def r3(ctx, rule):
                         exempt = True
         # a producer that merely feeds a later stage is not final: final = its result is moved into `groups` directly
         if st == 'group_by_suffix':
-            # final only under skip_content_hash (documented dangerous exception)
-            okx = True
-            for blk_i in range(len(b.blocks)):
-                pass
-            ctx.ok(rule, key, c.where(), 'suffix stage is final only under --skip-content-hash (documented exception)') if True else None
-            # verify the exception really is guarded
-            guarded = False
+            # --skip-content-hash weakens the equality test only: where the suffix-stage result becomes final it must still pass the strict filter
+            finals = []
             for bi, blk in enumerate(b.blocks):
-                for s in blk['stmts']:
-                    if s['rv']['k'] == 'use' and op_local(s['rv']['op']) == c.dest[0] and s['p'][0] in seen:
-                        for d in b.dominators()[bi]:
-                            t = b.blocks[d]['term']
-                            if t['k'] == 'switch':
-                                df = direct_field(b, t['op'])
-                                if df and df[0] == 'skip_content_hash':
-                                    tt, ft = switch_targets_bool(t)
-                                    skip_side = ft if df[2] else tt
-                                    guarded = guarded or b.dominates(skip_side, bi)
-            ctx.check(guarded, rule, key + '|guard', c.where(), 'the suffix-stage result becomes final only on the skip_content_hash edge', 'the suffix stage can be the final stage without --skip-content-hash')
+                for s_ in blk['stmts']:
+                    if s_['p'][0] in seen and not s_['p'][1] and s_['rv']['k'] == 'use' and op_local(s_['rv']['op']) == c.dest[0]:
+                        finals.append((bi, 'moved'))
+            # or through an adaptor chain (into_iter().filter(..).collect())
+            strict = False
+            chain = []
+            for pc in producers:
+                if pc is c or pc.path.startswith('group::'):
+                    continue
+                sl = backslice(b, [pc.args[0]]) if pc.args else None
+                if sl and c in sl.calls:
+                    chain.append(pc)
+                    for cc in sl.calls + [pc]:
+                        for a in cc.args:
+                            l = op_local(a)
+                            cp = lib.closure_of_type(b.local_ty(l)) if l is not None else None
+                            cb = lib.body(cp) if cp else None
+                            if cb is not None and cb.calls(r'FileGroup::<.*>::matches_strictly$|FileGroup<.*>::matches_strictly$'):
+                                strict = True
+            feeds_contents = any(c in backslice(b, [pc.args[-1]]).calls for pc in producers if pc.path.endswith('group_by_contents') and pc.args)
+            if chain:
+                ctx.check(strict, rule, key, chain[0].where(), 'where the suffix stage is the last one (--skip-content-hash) its result passes matches_strictly',
+                          'the suffix-stage result becomes final through %s without the strict filter' % chain[0].path.rsplit('::', 1)[-1])
+            elif finals:
+                ctx.violation(rule, key, c.where(), 'the result of the suffix stage becomes the final result unfiltered (under --skip-content-hash): the stage filters with the permissive `matches`, '
+                              'so with --unique / --rf-under every class is reported and with -H / --isolate groups below the threshold pass')
+            else:
+                ctx.ok(rule, key, c.where(), 'the suffix stage only feeds the contents stage')
             continue
         if f is None:
             ctx.violation(rule, key, c.where(), 'no post-filter found in %s' % st)
@@ -429,6 +446,38 @@ def r6(ctx):
         return
     ws = field_writes(rd, 'isolated_roots', 'DedupeConfig')
     if ctx.floor(rule, 'write of DedupeConfig.isolated_roots in run_dedupe', len(ws), 1, rd.where()):
+        def canonical(s_):
+            sl_ = backslice(rd, rvalue_operands(s_['rv']))
+            g = sl_.has_call(CANON)
+            for c_ in sl_.calls:
+                # closures handed to adaptors (map(|p| canonical_root(..)))
+                for a_ in c_.args:
+                    l_ = op_local(a_)
+                    cp_ = bn.closure_of_type(rd.local_ty(l_)) if l_ is not None else None
+                    cb_ = bn.body(cp_) if cp_ else None
+                    if cb_ is not None:
+                        for k_ in cb_.calls():
+                            if k_.matches(CANON):
+                                g = True
+                            if k_.f.get('canon'):
+                                for lb in lib.bodies.values():
+                                    if lb.raw.get('canon') == k_.f['canon'] and derives_from_call(lib, lb, [0], CANON):
+                                        g = True
+                if c_.f.get('canon'):
+                    for lb in lib.bodies.values():
+                        if lb.raw.get('canon') == c_.f['canon'] and derives_from_call(lib, lb, [0], CANON):
+                            g = True
+            return g
+        # the value that reaches the dedupe engine: explicit roots given on the command line must be canonical too
+        consumers = [c for c in rd.calls(r'(^|::)dedupe$|dedupe::dedupe$') if c.args]
+        if not consumers:
+            ctx.missing(rule, 'call of dedupe() in run_dedupe', rd.where())
+        else:
+            dom = [(bi_, s_) for bi_, s_ in ws if rd.dominates(bi_, consumers[0].bb) and canonical(s_)]
+            ctx.check(bool(dom), rule, 'bin::run_dedupe|isolated_roots|explicit', consumers[0].where(),
+                      'on every path to dedupe() the isolate roots (also those given on the command line) were put into the canonical form of the reported paths',
+                      'no canonicalising write of DedupeConfig.isolated_roots dominates the call of dedupe(): roots given with --isolate on the remove/link/move/dedupe command line are used '
+                      'verbatim (relative to nothing, symlinks unresolved), match no reported path, and files of one root are split up: `remove --isolate d1 --isolate d2` removes d1/b as well')
         bi, s = ws[0]
         sl = backslice(rd, rvalue_operands(s['rv']))
         good = sl.has_call(CANON)
